@@ -95,6 +95,10 @@ pub fn judge(policy: &Policy, eng: &Engine, out: &StepOut) -> Verdict {
 // Apply one generated operation; returns the step outputs (a NewUser is several steps).
 pub fn apply_op(eng: &mut Engine, op: &Op) -> Vec<StepOut> {
     match op {
+        Op::Connect => {
+            eng.connect();
+            vec![]
+        }
         Op::Line(c, l) => vec![eng.line(*c, l)],
         Op::NewUser { nick, user } => eng.register(nick, user).1,
         Op::Close(c, k) => vec![eng.close(*c, *k)],
